@@ -112,6 +112,7 @@ func (c *workerCtrl) autoStep() bool {
 			x = defaultChoice(c.pending)
 		}
 		c.n.w.ev("worker-choice n%d pending=%+v -> %d", c.n.idx, c.pending, x)
+		c.n.noteWorkerChoice(x)
 		c.choice <- x
 		return true
 	}
@@ -225,6 +226,7 @@ type RealTrigger struct {
 	expiry time.Duration
 	armedAt time.Duration
 	arms   []armRec
+	seen   bool // the harness has already let the clock pass this arming's expiry
 }
 
 type armRec struct {
@@ -248,6 +250,7 @@ func (t *RealTrigger) RegisterOnElection(h primitives.BlockHeight, v primitives.
 		t.markStopped()
 		d := t.inner.CalcTimeout(v)
 		t.armed = true
+		t.seen = false
 		t.cur = x
 		t.armedAt = w.now
 		t.expiry = w.now + d
@@ -288,6 +291,25 @@ func (w *World) advanceTo(at time.Duration) {
 	w.syncClock()
 	if at > w.now {
 		time.Sleep(at - w.now)
+		// library goroutines woken by the clock (retry sleeps, real timers) must come to rest before the harness goes on
+		w.quiesce()
 		w.syncClock()
+		for _, n := range w.nodes {
+			if n.wakeAt > 0 && n.wakeAt <= w.now {
+				n.wakeAt = 0
+			}
+		}
+	}
+}
+
+func (n *Node) noteWorkerChoice(x verifhook.Choice) {
+	switch x {
+	case verifhook.ChooseMessage:
+		if len(n.inbox) > 0 {
+			n.curMsg = n.inbox[0]
+			n.inbox = n.inbox[1:]
+		}
+	default:
+		n.curMsg = nil
 	}
 }
